@@ -37,6 +37,7 @@ package app
 //@   ensures added: old(amount.val) != 0 && old(a.model) != nil ==> a.model.TotalSlashed != nil && a.model.TotalSlashed.val == old(a.model.TotalSlashed.val) + old(amount.val)
 //@   ensures reported: ledgerDelta(a.bus.checker, 0) == old(ledgerDelta(a.bus.checker, 0)) + old(amount.val)
 //@   ensures othercoins: forall k types.CoinID :: k != 0 ==> ledgerDelta(a.bus.checker, k) == old(ledgerDelta(a.bus.checker, k))
+//@   modifies a.model, Model.TotalSlashed, appDirtyMarks, ledgerDelta(a.bus.checker, 0)
 
 //@ # ---------------------------------------------------------------- coin id counter (C22)
 //@ # the next id is the number of coins created so far plus one; the counter is only ever set explicitly
